@@ -417,7 +417,9 @@ def run_c14(run: core.Run, n_spec: int, n_marker: int) -> None:
     objs3 = [cells_to_spec(x, points, fixed_rng) for x in sets]
     thirds = [objs3[i] for i in (len(objs3) // 3, len(objs3) - 2)]
     n_pairs = 0
-    for a in objs3:
+    for ia, a in enumerate(objs3):
+        if not run.mine(ia):
+            continue
         na = ~a
         for b in objs3:
             n_pairs += 1
